@@ -16,6 +16,10 @@ import time
 import traceback
 
 VERIF = os.path.dirname(os.path.dirname(os.path.abspath(__file__)))
+# runs against a scratch copy of the repository (sensitivity / seeded-change evaluation) must not overwrite the
+# evidence and replay files of /repo itself
+ALT_TREE = os.path.abspath(os.environ.get("AKV_REPO", "/repo")) != "/repo"
+OUTROOT = os.path.join(tempfile.gettempdir(), "akv-alt-tree-output") if ALT_TREE else VERIF
 NSHARDS_DEFAULT = 16
 SHRINK_BUDGET = {"quick": 45.0, "thorough": 180.0}
 SHARD_TIMEOUT = {"quick": 600, "thorough": 3 * 3600}
@@ -296,7 +300,7 @@ def main():
     seen_paths = set()
     if violations:
         from .harness import case_hash
-        rdir = os.path.join(VERIF, "replays", args.id)
+        rdir = os.path.join(OUTROOT, "replays", args.id)
         os.makedirs(rdir, exist_ok=True)
         for v in violations:
             path = os.path.join(rdir, case_hash(v["case"])[:12] + ".json")
@@ -316,8 +320,8 @@ def main():
                             exhaustive=False, known_findings=known),
               assumptions=list(getattr(prop, "ASSUMPTIONS", [])),
               wall_s=round(wall, 2), violations=len(vlines))
-    os.makedirs(os.path.join(VERIF, "evidence"), exist_ok=True)
-    with open(os.path.join(VERIF, "evidence", f"{args.id}.json"), "w") as f:
+    os.makedirs(os.path.join(OUTROOT, "evidence"), exist_ok=True)
+    with open(os.path.join(OUTROOT, "evidence", f"{args.id}.json"), "w") as f:
         json.dump(ev, f, indent=1, default=str)
     print(f"{args.id} {args.tier}: evaluations={evaluations} distinct_nontrivial={len(hashes)} "
           f"excluded={dict(excluded)} violations={len(vlines)} wall={wall:.1f}s")
